@@ -24,7 +24,7 @@ def real_plans(tier):
 def run(tier):
     return snapcheck.run_snap_property(
         PROP, tier, "SnapTrace_C08.cfg", plans(tier), design=('snap', 'levels'), real_plans=real_plans(tier), real_cfg="RealTrace_C08.cfg",
-        require_repro=False,   # a recorded disagreement between two real calls is real behaviour even if a re-execution agrees (map order)
+        require_repro=False, codesnap=(tier == "thorough"),   # a recorded disagreement between two real calls is real behaviour even if a re-execution agrees (map order)
         rule="round synthetic grids; each input is snapped for its full set of 1-3 tile matrices and for every non-empty proper subset, the ids in ascending, reversed or shuffled order; "
              "TLC demands keys within the request and identical geometry per tile matrix across all records of the group")
 
